@@ -469,6 +469,12 @@ def check_bincount(case, ctx):
         counts2 = res2[2] if case["getbins"] else res2
         require(np.array_equal(counts2, counts), "bincount with precomputed %s gives %r, without %r", pre,
                 np.asarray(counts2).tolist(), counts.tolist())
+        # ids are computed once and reused (that is what passing them is for): a second call with the very
+        # same objects must give the same counts
+        res3 = must(h.bincount, t.rmin, t.rmax, t.nbin, t.ra1_c, t.dec1_c, t.ra2_c, t.dec2_c, **kw2)
+        counts3 = res3[2] if case["getbins"] else res3
+        require(np.array_equal(counts3, counts), "second bincount call with the same precomputed %s objects gives %r, "
+                "the first gave %r", pre, np.asarray(counts3).tolist(), counts.tolist())
     ctx.count("pairs-counted", int(counts.sum()))
     ctx.count("free-pairs", int(t.free.sum()))
 
